@@ -30,7 +30,7 @@ def wPanic : D := (D.init [.point]).run [.brk, .start, .send true 14, .send true
 /-! ## what holds of the code as it is, for every script of the debuggee and every command history -/
 
 /-- the invariant behind `C10_sigint_never_delivered` is closed under the tracer's atomic steps -/
-theorem sigintStable : Stable (fun d => SIGINT ∉ d.queue ∧ SIGINT ∉ d.k.delivered) := by
+theorem sigintStable : StableB (fun d => SIGINT ∉ d.queue ∧ SIGINT ∉ d.k.delivered) := by
   have ht : SIGINT ∈ transparent := by decide
   have hq : SIGINT ∉ quiet := by decide
   have key : ∀ (d : D) (m : Mode) (s : Sig), s ≠ SIGINT → SIGINT ∉ d.queue → SIGINT ∉ d.k.delivered →
@@ -67,13 +67,13 @@ theorem sigintStable : Stable (fun d => SIGINT ∉ d.queue ∧ SIGINT ∉ d.k.de
 log of the debuggee never contains SIGINT (no resume request ever carries it). -/
 theorem C10_sigint_never_delivered (script : List PEv) (cmds : List Cmd) :
     SIGINT ∉ ((D.init script).run cmds).k.delivered :=
-  (D.run_stable sigintStable cmds (D.init script) (by simp [D.init])).2
+  (D.run_stable sigintStable.toStable cmds (D.init script) (by simp [D.init])).2
 
 example : wTwice.k.arrived = [14] ∧ SIGINT ∉ wTwice.k.delivered := by decide
 
 /-- closure of "deliveries + queued instances of a non-quiet signal never exceed its arrivals" -/
 theorem noDupStable (x : Sig) (hx : x ∉ quiet) :
-    Stable (fun d => d.k.delivered.count x + d.queue.count x ≤ d.k.arrived.count x) := by
+    StableB (fun d => d.k.delivered.count x + d.queue.count x ≤ d.k.arrived.count x) := by
   refine ⟨?_, ?_, ?_, ?_, ?_, ?_, ?_⟩
   · intro d d' hk hq' h; rw [hk, hq']; exact h
   · intro d m b h
@@ -115,9 +115,153 @@ entered a signal-delivery-stop; what is still queued for injection is covered as
 theorem C10_nonquiet_never_duplicated (script : List PEv) (cmds : List Cmd) (x : Sig) (hx : x ∉ quiet) :
     let d := (D.init script).run cmds
     d.k.delivered.count x + d.queue.count x ≤ d.k.arrived.count x :=
-  D.run_stable (noDupStable x hx) cmds (D.init script) (by simp [D.init])
+  D.run_stable (noDupStable x hx).toStable cmds (D.init script) (by simp [D.init])
 
 example : (10 : Sig) ∉ quiet ∧ wBurst.k.arrived.count 10 = 1 := by decide
+
+/-! ## exactly once, under the hypothesis that no signal arrives while `single_step` is waiting -/
+
+/-- the named hypothesis: during the whole history no signal-delivery-stop was reported inside `Tracer::single_step`
+(neither during `stepi` nor during the step over a breakpoint that `continue` starts with).  Decidable: it is a
+ghost flag of the run. -/
+def NoSignalInsideStep (script : List PEv) (cmds : List Cmd) : Bool := !((D.init script).run cmds).stepArr
+
+/-- the conservation law: nothing queued twice, nothing owed after exit, and for every non-transparent signal
+handler runs + queued instances = signal-delivery-stops -/
+def Clean (d : D) : Prop :=
+  d.queue.length ≤ 1 ∧ (d.k.stop = .exited → d.queue = []) ∧
+  ∀ x, x ≠ 0 → x ∉ transparent → d.k.delivered.count x + d.queue.count x = d.k.arrived.count x
+
+theorem cleanStable : Stable (fun d => d.stepArr = false → Clean d) := by
+  -- a `PTRACE_CONT` issued with an empty queue (after the optional injection of `s`)
+  have contStep : ∀ (d : D) (s : Sig), d.k.stop ≠ .exited → d.queue = [] →
+      (∀ x, x ≠ 0 → x ∉ transparent → d.k.delivered.count x + (if s = 0 then 0 else if s = x then 1 else 0) = d.k.arrived.count x) →
+      Clean (d.kp .cont s).1 := by
+    intro d s hne hq hc
+    have hst := K.resume_stop d.k .cont s d.bpOn
+    refine ⟨?_, ?_, ?_⟩
+    · cases hw : (d.k.resume .cont s d.bpOn).2 with
+      | sigStop a => rw [D.kp_sig hw]; simp [D.push_queue, hq]; split <;> simp
+      | _ => rw [D.kp_other (by simp [hw])]; simp [hq]
+    · intro hex
+      cases hw : (d.k.resume .cont s d.bpOn).2 with
+      | sigStop a =>
+        have := hst.1 a hw
+        rw [D.kp_k] at hex; rw [this] at hex; cases hex
+      | _ => rw [D.kp_other (by simp [hw])]; simp [hq]
+    · intro x hx0 hx
+      obtain ⟨hd, δ, _, _, ha, hqc⟩ := D.kp_counts d .cont s x
+      rw [hd, ha, hqc]
+      have := hc x hx0 hx
+      simp only [hne, false_or, hx, if_false, hq, List.count_nil] at *
+      split <;> simp_all <;> omega
+  refine ⟨?_, ?_, ?_, ?_, ?_, ?_, ?_, ?_⟩
+  · intro d d' hk hq hs h; rw [hs]; intro hf; have := h hf; unfold Clean at *; rw [hk, hq]; exact this
+  · -- resume, empty queue
+    intro d b h hq hf
+    have hf' : d.stepArr = false := by simpa using hf
+    have hc := h hf'
+    by_cases hex : d.k.stop = .exited
+    · -- nothing happens to an exited debuggee
+      have e : (({ d with bpOn := b } : D).k.resume .cont 0 b) = (d.k, .unmodelled) := by simp [K.resume, hex]
+      have : (({ d with bpOn := b } : D).kp .cont 0).1.k = d.k ∧ (({ d with bpOn := b } : D).kp .cont 0).1.queue = d.queue := by
+        rw [D.kp_other (by intro a; simp [e])]; simp [e]
+      unfold Clean; rw [this.1, this.2]; exact hc
+    · exact contStep { d with bpOn := b } 0 hex hq (fun x hx0 hx => by simpa [hq] using hc.2.2 x hx0 hx)
+  · -- resume, one queued signal
+    intro d s h hq hf
+    have hf' : d.stepArr = false := by simpa using hf
+    have hc := h hf'
+    have hex : d.k.stop ≠ .exited := by intro e; have := hc.2.1 e; rw [hq] at this; cases this
+    refine contStep { d with queue := [] } s hex rfl (fun x hx0 hx => ?_)
+    have := hc.2.2 x hx0 hx
+    rw [hq, List.count_singleton] at this
+    by_cases hs0 : s = 0
+    · subst hs0
+      -- signal number 0 is never queued by the model's callers, but the law still holds: nothing is injected
+      simp only [if_true]
+      have h0 : ¬ (0 : Sig) = x := fun e => hx0 e.symm
+      simp_all
+    · simp only [hs0, if_false]
+      by_cases hsx : s = x <;> simp_all
+  · -- single_step, PTRACE_SINGLESTEP(0)
+    intro d h hf
+    cases hw : (d.kp .step 0).2 with
+    | sigStop a => rw [D.kps_sig hw] at hf; simp at hf
+    | _ =>
+      have hno : ∀ a, (d.kp .step 0).2 ≠ .sigStop a := by simp [hw]
+      rw [D.kps_other hno] at hf ⊢
+      have hf' : d.stepArr = false := by simpa using hf
+      have hc := h hf'
+      have hev : ∀ a, (d.k.resume .step 0 d.bpOn).2 ≠ .sigStop a := by intro a; rw [← D.kp_ev]; exact hno a
+      have hst := K.resume_stop d.k .step 0 d.bpOn
+      have hsp := K.resume_spec d.k .step 0 d.bpOn
+      rw [D.kp_other hev]
+      refine ⟨hc.1, ?_, ?_⟩
+      · intro hex
+        rcases hst.2 hex with e | e
+        · exact hc.2.1 e
+        · cases e
+      · intro x hx0 hx
+        simp only [D.kres_k, D.kres_queue]
+        rw [hsp.1, hsp.2.2 hev]; simpa using hc.2.2 x hx0 hx
+  · -- single_step, quiet injection: only after a signal arrived inside the step
+    intro d a _ _ _ hs hf
+    rw [D.kps_stepArr_true hs] at hf; cases hf
+  · -- two queued signals: excluded by the law
+    intro d s s' rest h hq hf
+    have hc := h hf
+    have := hc.1; rw [hq] at this; simp at this
+  · -- PTRACE_SYSCALL
+    intro d h hf
+    cases hw : (d.kres .sysc 0).2 with
+    | sigStop a => rw [D.ksys_sig hw] at hf; simp at hf
+    | _ =>
+      have hno : ∀ a, (d.kres .sysc 0).2 ≠ .sigStop a := by intro a h'; rw [hw] at h'; cases h'
+      rw [D.ksys_other hno] at hf ⊢
+      have hf' : d.stepArr = false := by simpa using hf
+      have hc := h hf'
+      have hst := K.resume_stop d.k .sysc 0 d.bpOn
+      have hsp := K.resume_spec d.k .sysc 0 d.bpOn
+      refine ⟨hc.1, ?_, ?_⟩
+      · intro hex
+        rcases hst.2 hex with e | e
+        · exact hc.2.1 e
+        · cases e
+      · intro x hx0 hx
+        simp only [D.kres_k, D.kres_queue]
+        rw [hsp.1, hsp.2.2 hno]; simpa using hc.2.2 x hx0 hx
+  · intro d p s h hf
+    have hc := h hf
+    have hs := K.send_fields d.k p s
+    unfold Clean
+    simp only [hs.1, hs.2.1, hs.2.2.1]
+    exact hc
+
+/-- **exactly once, partial**: for every script and every command history in which no signal arrived inside a
+single step, at every prompt and for every signal that is not transparent: handler runs + instances still queued for
+injection = signal-delivery-stops; at most one signal is queued; and once the debuggee has exited every signal that
+entered a signal-delivery-stop was handled exactly once. -/
+theorem C10_delivery_once_partial (script : List PEv) (cmds : List Cmd)
+    (h : NoSignalInsideStep script cmds = true) :
+    let d := (D.init script).run cmds
+    (∀ x, x ≠ 0 → x ∉ transparent → d.k.delivered.count x + d.queue.count x = d.k.arrived.count x) ∧
+    d.queue.length ≤ 1 ∧
+    (d.k.stop = .exited → ∀ x, x ≠ 0 → x ∉ transparent → d.k.delivered.count x = d.k.arrived.count x) := by
+  have hc : Clean ((D.init script).run cmds) :=
+    D.run_stable cleanStable cmds (D.init script) (fun _ => by simp [Clean, D.init])
+      (by simpa [NoSignalInsideStep] using h)
+  refine ⟨hc.2.2, hc.1, fun hex x hx0 hx => ?_⟩
+  have := hc.2.2 x hx0 hx
+  rw [hc.2.1 hex] at this
+  simpa using this
+
+/-- non-vacuity: a history with self-raised and externally sent signals, quiet and non-quiet, a breakpoint, an
+instruction step and a run to the end meets the hypothesis, and three signals are handled -/
+example : NoSignalInsideStep [.point, .raise 10, .kill 14, .point]
+    [.brk, .start, .stepi, .send true 12, .unbrk, .cont, .cont, .cont, .drain] = true ∧
+    ((D.init [.point, .raise 10, .kill 14, .point]).run
+      [.brk, .start, .stepi, .send true 12, .unbrk, .cont, .cont, .cont, .drain]).k.delivered = [12, 10, 14] := by decide
 
 /-! ## the full statement is false of the unchanged code: kernel-checked witnesses -/
 
